@@ -123,8 +123,9 @@ func srvDatagram(v6 bool, k SrvDgKind, serial int) ([]byte, net.Addr) {
 		m.MessageType = dhcpv6.MessageTypeRequest
 		m.AddOption(&dhcpv6.OptRemoteID{EnterpriseNumber: 7, RemoteID: []byte(fmt.Sprintf("remote-%d", serial))})
 		m.AddOption(dhcpv6.OptDomainSearchList(&rfc1035label.Labels{Labels: []string{fmt.Sprintf("d%d.example.org", serial)}}))
-		r, _ := dhcpv6.EncapsulateRelay(m, dhcpv6.MessageTypeRelayForward, net.ParseIP("2001:db8::1"), net.ParseIP("fe80::2"))
-		r2, _ := dhcpv6.EncapsulateRelay(r, dhcpv6.MessageTypeRelayForward, net.ParseIP("2001:db8::2"), net.ParseIP("fe80::3"))
+		// addresses differ per datagram so that state shared between datagrams shows
+		r, _ := dhcpv6.EncapsulateRelay(m, dhcpv6.MessageTypeRelayForward, net.ParseIP(fmt.Sprintf("2001:db8:%x::1", serial+1)), net.ParseIP(fmt.Sprintf("fe80::%x:2", serial+1)))
+		r2, _ := dhcpv6.EncapsulateRelay(r, dhcpv6.MessageTypeRelayForward, net.ParseIP(fmt.Sprintf("2001:db8:%x::2", serial+1)), net.ParseIP(fmt.Sprintf("fe80::%x:3", serial+1)))
 		return r2.ToBytes(), from
 	}
 	return m.ToBytes(), from
